@@ -99,8 +99,23 @@ def main():
         results = dict(meta.get("results_by_check", {}))
         for c in checks:
             t0 = time.time()
-            r = subprocess.run([os.path.join(VERIF, "vcheck"), c, "--tier", tier], env=env, stdout=subprocess.PIPE, stderr=subprocess.STDOUT, text=True, cwd=VERIF)
-            out = r.stdout
+            # own session + hard limit: a change under evaluation may send the harness into a loop; never let that outlive the evaluation
+            import signal
+            pr = subprocess.Popen([os.path.join(VERIF, "vcheck"), c, "--tier", tier], env=env, stdout=subprocess.PIPE, stderr=subprocess.STDOUT, text=True, cwd=VERIF, start_new_session=True)
+            try:
+                out, _ = pr.communicate(timeout=2700)
+            except subprocess.TimeoutExpired:
+                os.killpg(pr.pid, signal.SIGKILL)
+                out, _ = pr.communicate()
+                out = (out or "") + "\nHARNESS ERROR: evaluation exceeded 45 min and was killed\n"
+                pr.returncode = 2
+            finally:
+                try:
+                    os.killpg(pr.pid, signal.SIGKILL)       # stragglers (executors of a killed engine)
+                except ProcessLookupError:
+                    pass
+            class _R: pass
+            r = _R(); r.returncode = pr.returncode; r.stdout = out
             site = next((l.strip()[:200] for l in out.splitlines() if "site:" in l), "")
             key = next((l.strip()[:200] for l in out.splitlines() if l.strip().startswith("key=")), "")
             verdict = "DETECTED" if r.returncode == 1 else "missed" if r.returncode == 0 else "HARNESS-ERROR"
